@@ -50,8 +50,8 @@ def build_cases(ctx, singles, stacks):
                 sat_by_kind.setdefault(c["obj"], []).append(c["specs"][0])
     cases = [{k: copy.deepcopy(c[k]) for k in ("obj", "form", "style", "specs")} for c in sorted(singles, key=_key)]
     n_styled = ctx.pick(150, 0)
-    n_pairs = ctx.pick(90, 2200)      # per object kind
-    n_triples = ctx.pick(30, 700)     # per object kind
+    n_pairs = ctx.pick(90, 4000)      # per object kind
+    n_triples = ctx.pick(30, 1500)    # per object kind
     range_singles = [c for c in cases if c["form"] == "ranges"]
     if ctx.quick():
         for c in rng.sample(range_singles, n_styled):
